@@ -110,6 +110,18 @@ class LibMap:
         if self.is_ilist_iter(em, a0) and len(args) == 1 and op in ("*", "->"):
             # iterator of an intrusive list = pointer into the array of element pointers
             return "(**%s)" % em.paren(em.E(a0)) if op == "*" else "(*%s)" % em.paren(em.E(a0))
+        if is_scalar(ct0) and self.is_reverse_iter(em, a0):
+            x = em.paren(em.E(a0))
+            if op == "*" and len(args) == 1:
+                return "(*(%s - 1))" % x
+            if op == "->":
+                return "(%s - 1)" % x
+            if op in ("++", "--"):
+                rev = "--" if op == "++" else "++"
+                return "%s%s" % (x, rev) if len(args) == 2 else "%s%s" % (rev, x)
+            if op in ("==", "!=") and len(args) == 2:
+                return "%s %s %s" % (x, op, em.paren(em.E(args[1])))
+            return None
         if is_scalar(ct0) or ct0 == "vf_str":
             # smart pointers, iterators, atomics, string ids: builtin operator on the mapped value
             if op == "->":
@@ -272,6 +284,29 @@ class LibMap:
             return "%sbegin(%s)" % (f, p)
         if name in ("end", "cend"):
             return "%send(%s)" % (f, p)
+        if name in ("rbegin", "crbegin") and not args:
+            return "%send(%s)" % (f, p)  # reverse iterator = its base pointer (see cxxtypes: reverse_iterator)
+        if name in ("rend", "crend") and not args:
+            return "%sbegin(%s)" % (f, p)
+        if name == "sort" and len(args) <= 1:
+            # std::list::sort() / sort(std::greater<T>()) / sort(std::less<T>()): scalar elements only
+            ect = em.tm.seq_insts.get(tag, "struct")
+            if is_scalar(ect):
+                order = "asc"
+                if args:
+                    ft = em.tm.resolve(strip_ref(em.ptype(args[0])))
+                    if ft.kind == "named" and ft.last in ("greater", "less") and (ft.name or "").startswith("std::"):
+                        order = "desc" if ft.last == "greater" else "asc"
+                    else:
+                        return None
+                self.need.add(("seq_sort", tag))
+                return "%ssort_%s(%s)" % (f, order, p)
+            return None
+        if name == "unique" and not args:
+            if is_scalar(em.tm.seq_insts.get(tag, "struct")):
+                self.need.add(("seq_sort", tag))
+                return "%sunique(%s)" % (f, p)
+            return None
         if name == "data":
             return "%sbegin(%s)" % (f, p)
         if name == "erase":
@@ -318,6 +353,13 @@ class LibMap:
             return False
         return t.kind == "named" and t.last == "list_iterator" and (t.name or "").startswith("boost::intrusive::")
 
+    def is_reverse_iter(self, em, a):
+        try:
+            t = em.tm.resolve(strip_ref(em.ptype(a)))
+        except Unsupported:
+            return False
+        return t.kind == "named" and t.last == "reverse_iterator" and len(t.args or []) == 1
+
     def map_call(self, em, n, tag, p, name, args):
         f = "vf_map_%s_" % tag
         if name in ("size", "empty", "clear"):
@@ -354,6 +396,36 @@ class LibMap:
             if is_scalar(ct):
                 self.minmax.add((name, ct))
                 return "vf_%s_%s(%s, %s)" % (name, ident(ct), em.E(args[0]), em.E(args[1]))
+            if ct.startswith("struct ") and not ct.startswith("struct vf_") and not ct.endswith("*"):
+                # class type ordered by its own operator<=> (a unit or a callee): std::max(a,b) = (a < b) ? b : a and
+                # std::min(a,b) = (b < a) ? b : a, with x < y rewritten by the compiler to (x <=> y) < 0
+                tag = ct[len("struct "):]
+                cmpf = em.fn_cname(tag, "operator<=>", None)
+                em.note_proto(cmpf, "int", ["struct %s*" % tag, "struct %s*" % tag],
+                              "%s::operator<=> (used by std::%s)" % (tag, name))
+                em.callees.setdefault(cmpf, "%s::operator<=>" % tag)
+                em.callflag = True
+                hn = "vf_%s_%s" % (name, tag)
+                test = "%s(a, b) < 0" % cmpf if name == "max" else "%s(b, a) < 0" % cmpf
+                text = "static inline %s* %s(%s* a, %s* b) { return (%s) ? b : a; }" % (ct, hn, ct, ct, test)
+                if text not in em.lifted:
+                    em.lifted.append(text)
+                return "(*%s(%s, %s))" % (hn, em.addr_of(args[0]), em.addr_of(args[1]))
+        if name == "transform" and len(args) in (4, 5) and skip(args[-1]).get("kind") == "LambdaExpr":
+            # std::transform(first1, last1, [first2,] out, <captureless lambda>) over pointer iterators: an index loop
+            # calling the lifted lambda; the loop is loop number k of the calling unit (macro VF_LOOP_<unit>_<k>)
+            cts = [self.mapped(em, a) for a in args[:-1]]
+            if all(c and c.endswith("*") for c in cts):
+                m = em.loop_macro()
+                fn = em.lift_lambda_fn(skip(args[-1]))
+                hn = "vf_transform_" + fn
+                two = len(args) == 5
+                ps = ["%s b1" % cts[0], "%s e1" % cts[1]] + (["%s b2" % cts[2]] if two else []) + ["%s out" % cts[-1]]
+                call = "%s(b1[i], b2[i])" % fn if two else "%s(b1[i])" % fn
+                em.lifted.append("#ifndef %s\n#define %s\n#endif\nstatic inline %s %s(%s)\n{\n  size_t n = (size_t)(e1 - b1);\n"
+                                 "  for (size_t i = 0; i < n; i++)\n    %s\n  { out[i] = %s; }\n  return out + n;\n}\n"
+                                 % (m, m, cts[-1], hn, ", ".join(ps), m, call))
+                return "%s(%s)" % (hn, ", ".join(em.E(a) for a in args[:-1]))
         if name == "clamp" and len(args) == 3:
             ct = em.ctype(n)
             self.minmax.add(("clamp", ct))
@@ -450,6 +522,8 @@ class LibMap:
             return em.E(args[0])
         if ct.startswith("struct vf_seq_"):
             tag = ct[len("struct vf_seq_"):]
+            while args and args[-1].get("kind") == "CXXDefaultArgExpr":
+                args = args[:-1]  # defaulted allocator argument
             if not args:
                 return "vf_seq_%s_make()" % tag
             if len(args) == 1:
@@ -480,6 +554,8 @@ class LibMap:
                 return "((%s){0})" % ct
             if self.mapped(em, args[0]) == ct:
                 return em.E(args[0])
+            if "nullopt_t" in (qt(args[0]) or ""):
+                return "((%s){0})" % ct  # optional(std::nullopt), possibly through a copy of the nullopt_t object
             if skip(args[0]).get("kind") == "DeclRefExpr" and \
                     skip(args[0])["referencedDecl"].get("name") == "nullopt":
                 return "((%s){0})" % ct
@@ -494,6 +570,8 @@ class LibMap:
             if not args:
                 return "%s_make()" % ct[len("struct "):]
             if len(args) == 1 and self.mapped(em, args[0]) == ct:
+                if args[0].get("valueCategory") == "lvalue" and ct.startswith("struct vf_set_"):
+                    return "%s_copy(%s)" % (ct[len("struct "):], em.addr_of(args[0]))  # copy construction: own storage
                 return em.E(args[0])
             return None
         # plain class: copy/move construction = struct copy when declared POD in the config
